@@ -5,6 +5,6 @@ cd "$(dirname "$0")"
 export GOFLAGS=-mod=mod GOPROXY=off GOSUMDB=off GOTOOLCHAIN=local
 mkdir -p .work evidence
 cp harness/go.sum.base harness/go.sum
-(cd lean && lake build Evl Driver evldriver)
+(cd lean && lake build Evl evldriver)
 (cd harness && go build -tags verif -o ../.work/evh-setup ./cmd/evh && rm -f ../.work/evh-setup)
 echo setup-ok
